@@ -1,5 +1,5 @@
 (* C06 statements of worker prove3-cong, in Properties form (test-compiled against /verif/coq as a stand-alone file).
-   To merge into coq/Properties/C06.v: add the Require line's new modules (PnCong1..5, DfpnRep1, DfpnRep5, Refine Reach1 Alloc Preserve1) and paste the blocks; the two `_partial` statements of block 4 can stay as the conditional forms.
+   To merge into coq/Properties/C06.v: add the Require line's new modules (PnCong1..5, DfpnRep1, DfpnRep5, DfpnRep6, Refine Reach1 Alloc Preserve1) and paste the blocks; the two `_partial` statements of block 4 can stay as the conditional forms.
 
    Block 4 without `_partial`.  The hypothesis equal_congruent (positions that Position.Equal identifies have the same
    history-free value) is false for arbitrary records (Position.Equal does not compare reserves, tie-break flag or ply
@@ -10,7 +10,7 @@
    configurations of sizes 3..6 with the default counts, any custom configuration up to 64 pieces). *)
 From Coq Require Import NArith ZArith List Bool.
 Require Import Board Move Refine GameOver Eval Search Preserve1 Reach1 Alloc AndOr AndOrS Pn PnRun PnFacts PnRunFacts Dfpn DfpnFacts DfpnFactsL
-  PnCong1 PnCong2 PnCong3 PnCong4 PnCong5 DfpnRep1 DfpnRep5.
+  PnCong1 PnCong2 PnCong3 PnCong4 PnCong5 DfpnRep1 DfpnRep5 DfpnRep6.
 Require Import Generated.Consts.
 Import ListNotations.
 Open Scope N_scope.
@@ -141,6 +141,26 @@ Theorem C06_dfpn_disproven_sound_nohit_on_partial :
     forall n, wn position (succs basis) (terminal aw) (attp aw) n g = false.
 Proof. exact dfpn_disproven_sound_nohit_on. Qed.
 Print Assumptions C06_dfpn_disproven_sound_nohit_on_partial.
+
+(* 6b''. the safe envelope of reuse: a call on a solver whose table holds only unconditional entries (DfpnFactsL.table_okL;
+   true of a fresh table) that meets no repetition answers `disproven` soundly AND leaves such a table - so a reused solver is
+   sound as long as no call so far has met a repetition (the refuting sequences have Repetition = 6 in their first call) *)
+Theorem C06_dfpn_disproven_sound_norep_from_partial :
+  forall (basis : list N) (aw : bool) (Sp : position -> Prop),
+    (forall p m q, Sp p -> terminal aw p = None -> In m (all_moves p) -> dmv basis p m = Ok q -> Sp q) ->
+    (forall p, Sp p -> size p <= 8) ->
+    (forall p q, Sp p -> Sp q -> hash_of p = hash_of q ->
+       (W basis aw p <-> W basis aw q) /\ to_move_white p = to_move_white q /\ terminal aw p = terminal aw q) ->
+    (forall p, Sp p -> hash_of p <> 0) ->
+    (forall p, Sp p -> terminal aw p = None -> all_moves p <> []) ->
+    (forall p, Sp p -> terminal aw p = None -> solve p <> None -> attp aw p = false ->
+       exists q, In q (succs basis p) /\ terminal aw q = Some false) ->
+    forall lfuel dfuel s0 g s e w,
+      Sp g -> table_okL basis aw Sp s0 -> prove_from basis aw lfuel dfuel s0 g = (s, e, w) -> ds_rep (dst s) = ds_rep (dst s0) ->
+      table_okL basis aw Sp s /\
+      (result_of aw g e = 2 -> forall n, wn position (succs basis) (terminal aw) (attp aw) n g = false).
+Proof. exact dfpn_disproven_sound_norep_from. Qed.
+Print Assumptions C06_dfpn_disproven_sound_norep_from_partial.
 
 (* 6c. NoCollisionOn Sp (both forms) from "equal hash implies Position.Equal" for positions of one game *)
 Theorem C06_nocollision_from_equal :
